@@ -84,6 +84,10 @@ VictimsFor(tracked, tps, now, s) ==
 (* pot is scaled by the average: admitting amount n costs n * p, time d pays d * a;               *)
 (* the statement "admitted in any interval of length T <= burst + T/(p/a) + 1" is equivalent to   *)
 (* pot <= (b + 1) * p after every admission.                                                      *)
-PotAfter(pot, r, d, n) == Max(pot - d * r.a, 0) + n * r.p
-PotBound(r) == (r.b + 1) * r.p
+(* when the average divides the period the same quantity is kept divided by the average (ticks of debt   *)
+(* instead of token-periods): identical comparisons, but byte-sized amounts on daily periods stay      *)
+(* within TLC's 32-bit integers                                                                        *)
+PotAfter(pot, r, d, n) == IF r.p % r.a = 0 THEN Max(pot - d, 0) + n * (r.p \div r.a)
+                          ELSE Max(pot - d * r.a, 0) + n * r.p
+PotBound(r) == IF r.p % r.a = 0 THEN (r.b + 1) * (r.p \div r.a) ELSE (r.b + 1) * r.p
 =============================================================================
